@@ -49,3 +49,55 @@ package mmap
 //gvc:  opt safety
 //gvc:  requires wf: s != nil
 //gvc:end
+
+//gvc:func searchObjectID
+//gvc:  props C10 C53
+//gvc:  theory int
+//gvc:  results pos found
+//gvc:  requires range: 0 <= left && left <= 0xffffffff && 0 <= right && right <= 0xffffffff
+//gvc:  lit 1 requires 0 <= i && i < n
+//gvc:  ensures inrange: found ==> left <= pos && pos < right
+//gvc:end
+
+//gvc:func (*PackScanner).FindOffset
+//gvc:  props C10 C53
+//gvc:  theory int
+//gvc:  results off err
+//gvc:  requires wf: wf_scanner(s)
+//gvc:end
+
+//gvc:func (*PackScanner).lookupOffset
+//gvc:  props C10 C53
+//gvc:  theory int
+//gvc:  results pos found
+//gvc:  requires wf: wf_scanner(s)
+//gvc:  loop 1 invariant range: 0 <= left && right < numEntries
+//gvc:  loop 1 decreases right - left + 1
+//gvc:  ensures intable: found ==> 0 <= pos && pos < s.count
+//gvc:end
+
+//gvc:func (*PackScanner).FindHash
+//gvc:  props C10 C53
+//gvc:  theory int
+//gvc:  results id err
+//gvc:  requires wf: wf_scanner(s)
+//gvc:end
+
+// loadIdxFile establishes wf_scanner or fails (coarse: mmapFile / validateFile
+// are abstracted; validateFile guarantees at least idxMinLen bytes).
+//gvc:func (*PackScanner).loadIdxFile
+//gvc:  props C10 C53
+//gvc:  theory int
+//gvc:  opt coarse
+//gvc:  opt frame args
+//gvc:  results err
+//gvc:  requires hs: s.hashSize == 20 || s.hashSize == 32
+//gvc:  ensures wf: err == nil ==> wf_scanner(s)
+//gvc:end
+
+//gvc:func validateFile
+//gvc:  props C10 C53
+//gvc:  theory int
+//gvc:  requires sane: 0 <= len(sig) && len(sig) + 4 <= minLen
+//gvc:  ensures long: result == nil ==> len(mmap) >= minLen
+//gvc:end
